@@ -131,6 +131,34 @@ pub fn run(tier: &str, seed: u64) -> i32 {
         .into();
     let findings = load_findings();
     replay_findings(&mut report, &findings, &judge);
+    // examples that a memo keyed on the YAML mapping would confuse: equal but for the sign of a
+    // zero, 1 against 1.0, .nan twice - each judged on its own by matches()
+    for (body, a, b) in [
+        ("    str(delta): '-0'\n", "-0.0", "0.0"),
+        ("    str(delta): '0'\n", "0.0", "-0.0"),
+        ("    str(delta): '0*'\n", "-0.0", "0.0"),
+        ("    str(delta): '1'\n", "1", "1.0"),
+        ("    delta: 1\n", "1.0", "1"),
+        ("    str(delta): 'NaN'\n", ".nan", ".NaN"),
+        ("    delta: '>=0'\n", "0", "-0.0"),
+    ] {
+        for (first, second) in [(a, b), (b, a)] {
+            for layout in 0..3 {
+                let ex = |v: &str| format!("- delta: {v}\n  marker: ex01q\n");
+                let (tp, tn) = match layout {
+                    0 => (format!("{}{}", ex(first), ex(second)), "[]\n".to_string()),
+                    1 => (format!("\n{}", ex(first)), format!("\n{}", ex(second))),
+                    _ => ("[]\n".to_string(), format!("\n{}{}", ex(first), ex(second))),
+                };
+                let tp = if tp.starts_with('-') { format!("\n{tp}") } else { tp };
+                let mut c = Case::new("c13.validate");
+                c.rules = vec![format!("detection:\n  A:\n{body}  condition: A\ntrue_positives: {tp}true_negatives: {tn}")];
+                let out = judge(&c);
+                report.label("near_equal_examples");
+                report.record(&c, out);
+            }
+        }
+    }
     let n = if tier == "thorough" { 400_000 } else { 16_000 };
     gen::drive(
         &mut report,
